@@ -135,8 +135,15 @@ func (s Sample) Mean() float64 {
 		//   m_i = (1 - w_i/wsum_i) * m_(i-1) + (w_i/wsum_i) * x_i
 		//       = m_(i-1) + (x_i - m_(i-1)) * (w_i/wsum_i)
 		w := s.Weights[i]
+		if w == 0 {
+			// Avoid 0/0 while wsum is still zero.
+			continue
+		}
 		wsum += w
 		m += (x - m) * w / wsum
+	}
+	if wsum == 0 {
+		return math.NaN()
 	}
 	return m
 }
@@ -202,9 +209,17 @@ func (s Sample) GeoMean() float64 {
 	m, wsum := 0.0, 0.0
 	for i, x := range s.Xs {
 		w := s.Weights[i]
+		if w == 0 {
+			// Avoid 0/0 while wsum is still zero (and ignore
+			// the value, which need not be positive).
+			continue
+		}
 		wsum += w
 		lx := math.Log(x)
 		m += (lx - m) * w / wsum
+	}
+	if wsum == 0 {
+		return math.NaN()
 	}
 	return math.Exp(m)
 }
